@@ -274,6 +274,18 @@ def _poly_build(terms, atoms):
     return z3.simplify(acc if acc is not None else z3.RealVal(0), som=True)
 
 
+def _is_linear(t):
+    """cheap syntactic test: polynomial of total degree <= 1 in atoms that are plain variables"""
+    atoms = {}
+    p = _poly_terms(z3.simplify(t, som=True), atoms)
+    if p is None:
+        return False
+    for key in p:
+        if sum(pw for _i, pw in key) > 1:
+            return False
+    return all(z3.is_const(a) or (z3.is_app(a) and a.decl().kind() == z3.Z3_OP_TO_REAL) for a in atoms.values())
+
+
 def _mk(n, d):
     """normalised quotient n/d (d known non-zero on the current path): constant denominators are
     divided out, proportional polynomials give a constant, common monomial factors are cancelled"""
@@ -484,11 +496,17 @@ class SymReal:
             r = Fraction(math.isqrt(v.numerator), 1) / Fraction(math.isqrt(v.denominator), 1)
             if r * r == v:
                 return SymReal(z3.RealVal(str(r)))
+        # sqrt is a function: the same argument term gives the same root symbol within a run
+        key = ("sqrt", self.e.get_id())
+        hit = eng.fn_cache.get(key)
+        if hit is not None:
+            return SymReal(hit[1])
         r = eng.fresh_real("sqrt")
         if self.d is not None:
             eng.define(z3.And(r >= 0, r * r * self.d == self.n))
         else:
             eng.define(z3.And(r >= 0, r * r == self.e))
+        eng.fn_cache[key] = (self.e, r)
         return SymReal(r)
 
     def __neg__(self):
@@ -503,11 +521,12 @@ class SymReal:
         eng = engine()
         if self.d is not None:
             n, d = self.n, self.d
-            sn, sd = eng.implied(n >= 0), eng.implied(d >= 0)
+            sn = eng.implied(n >= 0) if _is_linear(n) else None
+            sd = eng.implied(d >= 0) if _is_linear(d) else None
             n2 = n if sn is True else (-n if sn is False else z3.If(n >= 0, n, -n))
             d2 = d if sd is True else (-d if sd is False else z3.If(d >= 0, d, -d))
             return _mk(n2, d2) if (sn is not None and sd is not None) else SymReal(None, n=z3.simplify(n2), d=z3.simplify(d2))
-        s = eng.implied(self._e >= 0)
+        s = eng.implied(self._e >= 0) if _is_linear(self._e) else None
         if s is True:
             return self
         if s is False:
